@@ -110,7 +110,11 @@ Theorem C03_gen_punctuators :
   Gen.Punctuators.punctuators_unrecognised = 0%N /\
   Gen.Punctuators.token_kinds
   = combine (map Tables.LexerTable.tkind_name Tables.LexerTable.tkinds) (map N.of_nat (seq 1 20)).
-Proof. repeat split; vm_compute; reflexivity. Qed.
+Proof.
+  repeat split;
+  first [ vm_compute; reflexivity
+        | fail 1 "generated-table obligation C03_gen_punctuators no longer holds against the regenerated table: the punctuator cases of lexer.readToken or the TokenKind constants (Gen/Punctuators.v) are not the table of the lexer model (Tables/LexerTable.v)" ].
+Qed.
 Print Assumptions C03_gen_punctuators.
 
 (* Every generated entry is lexed by the model as the source says: its first byte followed by
@@ -139,7 +143,10 @@ Print Assumptions C03_gen_punctuators_lexed.
    printer use these): description = first byte followed by the lookahead, token length = its length. *)
 Theorem C03_gen_punctuators_spelled :
   forallb (Tables.LexerTable.entry_spelled Gen.Punctuators.token_descriptions) Gen.Punctuators.punctuators = true.
-Proof. vm_compute. reflexivity. Qed.
+Proof.
+  first [ vm_compute; reflexivity
+        | fail 1 "generated-table obligation C03_gen_punctuators_spelled no longer holds against the regenerated table: some punctuator of lexer.readToken is not spelled as tokenDescription prints its kind (Gen/Punctuators.v)" ].
+Qed.
 Print Assumptions C03_gen_punctuators_spelled.
 
 (* The other cases of the switch send exactly the model's name-start bytes to readName, '-' and
@@ -160,7 +167,9 @@ Proof.
      Bool.eqb (Tables.LexerTable.dispatch_to "readBlockString" Gen.Punctuators.dispatch c) (c =? 34)%N &&
      negb Gen.Punctuators.switch_has_default)%bool).
   assert (HP : P c = true).
-  { apply Proofs.TablesLexer.forall_bytes256; [vm_compute; reflexivity|exact Hc]. }
+  { apply Proofs.TablesLexer.forall_bytes256; [|exact Hc].
+    first [ vm_compute; reflexivity
+          | fail 1 "generated-table obligation C03_gen_dispatch no longer holds against the regenerated table: the readName / readNumber / readString cases of lexer.readToken (Gen/Punctuators.v) are not the start bytes of the lexer model" ]. }
   unfold P in HP. repeat rewrite Bool.andb_true_iff in HP.
   destruct HP as [[[[H1 H2] H3] H4] H5].
   apply Bool.eqb_prop in H1, H2, H3, H4. apply Bool.negb_true_iff in H5.
